@@ -35,7 +35,7 @@ def sig_of(e, events=None, k=None):
     prog = e.get("prog", "")
     if e.get("e") == "cal":
         return {"stage": "calibration", "id": e.get("id")}
-    f = J.features(prog)
+    f = J.features(prog) + list(e.get("mo", []))
     if f:
         return {"stage": "cli", "cause": f[0]}
     if e.get("dup"):
